@@ -4,14 +4,16 @@
    number instance named below). *)
 From Coq Require Import ZArith List Bool String.
 From FpyV Require Import Num.RealFloat Num.Float Num.CtxDef Num.Out
-  Lang.Syntax Lang.Values Lang.Sem Lang.NumInst.
+  Lang.Syntax Lang.Values Lang.Sem Lang.NumInst Lang.PyIR Lang.Compile.
 Import ListNotations.
 Open Scope Z_scope.
 
 Definition fuel4 : nat := 2000.
 
 Definition run4 := (list cval * option ctx * res cval)%type.
-Definition case4 := (program * ident * list run4)%type.
+(* program, entry point, runs, and per function the statement skeleton of the
+   Python code the real BytecodeCompiler emitted for it *)
+Definition case4 := (program * ident * list run4 * list (ident * string))%type.
 
 (* two outcomes agree: the same value (veq), or the same exception class;
    divergence on both sides counts as agreement *)
@@ -29,10 +31,26 @@ Definition model4 (P : program) (f : ident) (r : run4) : res cval :=
 Definition check_run4 (P : program) (f : ident) (r : run4) : bool :=
   res_eqb (model4 P f r) (snd r).
 
+(* the emitted code has the statement scheme the compile model (Lang/Compile.v) says *)
+Definition check_skel4 (P : program) (fs : ident * string) : bool :=
+  match lookup_fn P (fst fs) with
+  | Some fn => String.eqb (skeleton fn) (snd fs)
+  | None => false
+  end.
+
 Definition check4 (c : case4) : bool :=
-  let '(P, f, runs) := c in forallb (check_run4 P f) runs.
+  let '(P, f, runs, skels) := c in forallb (check_run4 P f) runs && forallb (check_skel4 P) skels.
 
 (* indices of the disagreeing runs of a case (for the replay / shrink step) *)
 Definition bad_runs4 (c : case4) : list nat :=
-  let '(P, f, runs) := c in
+  let '(P, f, runs, _) := c in
   map fst (filter (fun ir => negb (check_run4 P f (snd ir))) (combine (seq 0 (List.length runs)) runs)).
+
+Definition models4 (c : case4) : list (res cval) :=
+  let '(P, f, runs, _) := c in map (model4 P f) runs.
+
+(* functions whose emitted skeleton differs, with the skeleton the model expects *)
+Definition bad_skels4 (c : case4) : list (ident * string) :=
+  let '(P, f, _, skels) := c in
+  map (fun fs => (fst fs, match lookup_fn P (fst fs) with Some fn => skeleton fn | None => EmptyString end))
+      (filter (fun fs => negb (check_skel4 P fs)) skels).
